@@ -31,3 +31,11 @@ pub fn mec_files(max_bytes: usize) -> Vec<(String, String)> {
   for f in files { if let Ok(s) = std::fs::read_to_string(&f) { if s.len() <= max_bytes { out.push((f.to_string_lossy().trim_start_matches("/repo/").to_string(), s)); } } }
   out
 }
+
+/// names of the native functions a fresh interpreter can call (`namespace/name`), read from its registry: the inventory the
+/// stdlib sweeps iterate over
+pub fn stdlib_functions() -> Vec<String> {
+  let mut out: Vec<String> = inventory::iter::<mech_core::FunctionCompilerDescriptor>.into_iter().map(|d| d.name.to_string()).filter(|n| n.contains('/')).collect();
+  out.sort(); out.dedup();
+  out
+}
